@@ -34,7 +34,7 @@ type c01Op struct {
 }
 
 func c01() {
-	R := vr.New("C01", "history", "seeded operation histories (add/update/set-admin/remove/failed ops, records whose time field another tool set to the future / 0 / the past, add/update failing half-way because <base>/.tmp is not a directory/default switch/set removal) over 3-6 users on stores with 4 parameter sets; after every step the whole observable state is compared with a sequential reference model and near-miss passwords are probed. Non-trivial: a history with >=2 users, >=1 successful update and >=1 failed operation; distinct by operation sequence hash")
+	R := vr.New("C01", "history", "seeded operation histories (add/update/set-admin/remove/failed ops, records whose time field another tool set to the future / 0 / the past, hash files that are symbolic links to a file outside the base directory, add/update failing half-way because <base>/.tmp is not a directory/default switch/set removal) over 3-6 users on stores with 4 parameter sets; after every step the whole observable state is compared with a sequential reference model and near-miss passwords are probed. Non-trivial: a history with >=2 users, >=1 successful update and >=1 failed operation; distinct by operation sequence hash")
 	defer R.Write()
 	nh := vr.Pick(150, 1200)
 	nops := vr.Pick(25, 40)
@@ -188,6 +188,20 @@ func c01History(R *vr.Result, rng *rand.Rand, id, dir string, nops int) {
 				ext = ".admin"
 			}
 			p := filepath.Join(base, u+ext)
+			if rng.Intn(3) == 0 {
+				// the record is kept on another volume and linked back (or the link already exists: nothing to do)
+				if fi, err := os.Lstat(p); err == nil && fi.Mode().IsRegular() {
+					side := filepath.Join(dir, "side")
+					os.MkdirAll(side, 0700) //nolint:errcheck
+					tgt := filepath.Join(side, fmt.Sprintf("%s%s.%d", u, ext, step))
+					if os.Rename(p, tgt) == nil && os.Symlink(tgt, p) == nil {
+						hist = append(hist, c01Op{Op: "relink", User: u})
+						R.Count("symlinked_records", 1)
+					}
+				}
+				c01Observe(R, rng, d, names, model, all, active, def, viol)
+				continue
+			}
 			data, err := os.ReadFile(p)
 			f := strings.SplitN(string(data), ":", 3)
 			if err != nil || len(f) != 3 {
